@@ -3,6 +3,7 @@ package main
 // Calls: models of external functions, inlining, modular contract application.
 
 import (
+	"sort"
 	"fmt"
 	"go/types"
 	"strconv"
@@ -436,7 +437,31 @@ func (e *Exec) model(s *State, c *ssa.Call, fn *ssa.Function, full string, args 
 		// from dst through pointers and maps (it merges maps in place and recurses
 		// through pointers); with WithAppendSlice slices are re-allocated by append,
 		// not written in place; src is only read. It fails or succeeds.
-		e.writeReachable(s, args[0], map[int]bool{}, "written-by:mergo.Merge")
+		// Aliasing (read off mergo v1.0.1's deepMerge): a nil pointer field of dst is
+		// SET to src's pointer, a nil map is rebuilt with src's VALUES, slices are
+		// appended element-wise — so after the call dst may hold pointers to
+		// everything src's fields, map values and slice elements point to. A later
+		// Merge into the same dst writes through them.
+		seen := map[int]bool{}
+		e.writeReachable(s, args[0], seen, "written-by:mergo.Merge")
+		unwrap := func(v Val) Val {
+			if iv, ok := v.(Iface); ok {
+				return iv.V
+			}
+			return v
+		}
+		if d, ok := unwrap(args[0]).(Ref); ok && !d.isNil() {
+			al := map[int]bool{}
+			if prev, ok := s.Ghost[fmt.Sprintf("mergo-alias:%d", d.Cell)].(aliasSet); ok {
+				for c := range prev {
+					al[c] = true
+				}
+			}
+			if sr, ok := unwrap(args[1]).(Ref); ok && !sr.isNil() {
+				e.pointees(s, s.load(sr), al, true)
+			}
+			s.Ghost[fmt.Sprintf("mergo-alias:%d", d.Cell)] = aliasSet(al)
+		}
 		s2 := s.clone()
 		return []Out{{St: s, Rets: []Val{Iface{}}}, {St: s2, Rets: []Val{Iface{Dyn: errDynType, V: Opaque{Tag: "mergo-error"}}}}}, true
 	case "github.com/mitchellh/go-wordwrap.WrapString":
@@ -651,6 +676,24 @@ func (e *Exec) builtin(s *State, c *ssa.Call, b *ssa.Builtin, args []Val) []Out 
 			s.store(dst.Arr.sub(dst.Lo+i), s.load(src.Arr.sub(src.Lo+i)))
 		}
 		return ret(mkInt(int64(n)))
+	case "max", "min":
+		// numeric operands only (Int or Real terms)
+		cur, ok := args[0].(*T)
+		if !ok {
+			unsupported("builtin %s on %T", b.Name(), args[0])
+		}
+		for _, a := range args[1:] {
+			t, ok := a.(*T)
+			if !ok {
+				unsupported("builtin %s on %T", b.Name(), a)
+			}
+			op := ">="
+			if b.Name() == "min" {
+				op = "<="
+			}
+			cur = mkIte(mkCmp(op, cur, t), cur, t)
+		}
+		return ret(cur)
 	}
 	unsupported("builtin %s", b.Name())
 	return nil
@@ -915,6 +958,11 @@ func (e *Exec) havocLike(s *State, cur Val, prefix string, args []Val) []Val {
 			return []Val{Ref{}}
 		}
 		return []Val{Ref{}, c}
+	case SliceV:
+		// a slice location the callee may have appended to: unknown from here on
+		// (a path that reads it afterwards is reported as not modelled)
+		e.freshSeq++
+		return []Val{Opaque{Tag: fmt.Sprintf("%s!%d", prefix, e.freshSeq)}}
 	}
 	unsupported("cannot havoc location holding %T", cur)
 	return nil
@@ -1039,6 +1087,13 @@ func (c *EvalCtx) evalRef(n *Node) (Ref, bool) {
 	case "sel":
 		base := c.eval(n.Kids[0])
 		r, ok := base.(Ref)
+		if !ok {
+			// a struct held by value inside another location: x.y.f where y is a
+			// struct field — take y's address first
+			if _, isAgg := base.(*Agg); isAgg {
+				r, ok = c.evalRef(n.Kids[0])
+			}
+		}
 		if !ok || r.isNil() {
 			return Ref{}, false
 		}
@@ -1173,6 +1228,15 @@ func (e *Exec) writeReachable(s *State, v Val, seen map[int]bool, tag string) {
 		cur := s.Heap[x.Cell]
 		s.Heap[x.Cell] = Opaque{Tag: tag}
 		e.writeReachable(s, cur, seen, tag)
+		// what an earlier merge may have made this destination point to
+		if al, ok := s.Ghost[fmt.Sprintf("mergo-alias:%d", x.Cell)].(aliasSet); ok {
+			for _, c := range sortedAlias(al) {
+				if !seen[c] {
+					seen[c] = true
+					s.Heap[c] = Opaque{Tag: tag}
+				}
+			}
+		}
 	case *Agg:
 		for _, el := range x.Elems {
 			e.writeReachable(s, el, seen, tag)
@@ -1191,5 +1255,62 @@ func (e *Exec) writeReachable(s *State, v Val, seen map[int]bool, tag string) {
 		}
 	case Iface:
 		e.writeReachable(s, x.V, seen, tag)
+	}
+}
+
+// aliasSet: heap cells a merged destination may point into (already closed under
+// reachability at the time of the merge).
+type aliasSet map[int]bool
+
+func sortedAlias(a aliasSet) []int {
+	var ks []int
+	for k := range a {
+		ks = append(ks, k)
+	}
+	sort.Ints(ks)
+	return ks
+}
+
+// pointees collects the cells that the pointers stored in v point to, and all
+// that is reachable from them. top: v is the source struct itself — its own map
+// cells and slice arrays are rebuilt by the merger, only their contents alias.
+func (e *Exec) pointees(s *State, v Val, into map[int]bool, top bool) {
+	switch x := v.(type) {
+	case Ref:
+		if x.isNil() || into[x.Cell] {
+			return
+		}
+		into[x.Cell] = true
+		e.pointees(s, s.Heap[x.Cell], into, false)
+	case *Agg:
+		for _, el := range x.Elems {
+			e.pointees(s, el, into, top)
+		}
+	case MapV:
+		if x.Cell == 0 {
+			return
+		}
+		if !top {
+			if into[x.Cell] {
+				return
+			}
+			into[x.Cell] = true
+		}
+		if ma, ok := s.Heap[x.Cell].(*MapAgg); ok {
+			for _, el := range ma.Vals {
+				e.pointees(s, el, into, false)
+			}
+		}
+	case SliceV:
+		if x.Arr.isNil() {
+			return
+		}
+		if arr, ok := s.Heap[x.Arr.Cell].(*Agg); ok {
+			for k := 0; k < x.Len_ && x.Lo+k < len(arr.Elems); k++ {
+				e.pointees(s, arr.Elems[x.Lo+k], into, false)
+			}
+		}
+	case Iface:
+		e.pointees(s, x.V, into, top)
 	}
 }
